@@ -29,7 +29,7 @@ LEVEL = "model_checking"
 # no reduced pass under `python -O`: the texts here include malformed ones, which the trusted tokenizer (msdparser)
 # recognises by assert statements - without them it loops; that is the dependency's business
 REDUCED_PASS = False
-NAMES = ["x.sm", "x.ssc", ".SM", ".SSC", "x.txt", "x.sm.bak", "ssc", "sm"]  # ".SM" / ".SSC": upper case and nothing before the dot
+NAMES = ["x.sm", "x.ssc", ".SM", ".SSC", "x.txt", "x.sm.bak", "sm", "y.sm\n"]  # ".SM" / ".SSC": upper case and nothing before the dot
 
 
 def translate(text):
@@ -171,7 +171,7 @@ def check_text(text, env, files=True, native=True):
 
 # -- stand-alone charts -------------------------------------------------------------
 
-CHART_PIECES = ["#STEPSTYPE:x;", "#stepstype:y;", "#ATTACKS:a:b;", "#attacks:c:d;", "#NOTES:0000;", "#notes:1;", "#NOTES2:1111;", "#Credit;", "stray", "#METER:1;", "\n"]
+CHART_PIECES = ["#STEPSTYPE:x;", "#stepstype:y;", "#ATTACKS:a:b;", "#attacks:c:d;", "#NOTES:0000;", "#notes:1;", "#NOTES2:1111;", "#Credit;", "stray", "#METER:1;", "\n", "#NOTESX:n;", "#xNotes2:m;"]
 CHART_HEADS = ["#NOTEDATA:;", "#notedata:;", "#NOTEDATA:;\n", "#TITLE:a;", "stray#NOTEDATA:;"]
 
 
